@@ -162,6 +162,10 @@ partial def loop (h out : IO.FS.Stream) (s : Sess) : IO Unit := do
     let (s', o) := evalLine s input alnum ws
     out.putStrLn o
     loop h out s'
+  | ["evalt", input, alnum, ws] =>
+    let (s', o) := evalLine s input alnum ws
+    out.putStrLn o
+    loop h out s'
   | ["evalp", input, alnum, ws] =>
     let (s', o) := evalLineWith true s input alnum ws
     out.putStrLn o
